@@ -171,7 +171,8 @@ def eval_moved(fam, f, K):
     if skip:
         return skip, []
     lk = lib.to_lib(K)
-    lib.call(inter, lib.to_lib(f), lk)
+    lf = lib.to_lib(f)
+    r0 = lib.call(inter, lf, lk)
     lib.call(lambda: lk.area())
     viols = []
     t = (0, 0, 0)
@@ -289,6 +290,9 @@ def families(tier):
             fams.append(FlatBody(b, pose, params))
         fams.append(PointList(pose))
     fams = A.with_int_mode(fams, tier)
+    if tier == 'quick':
+        for b in ('triangle', 'hexagon'):
+            fams.append(FlatBody(b, A.P4, params))
     for b in (('triangle', 'tetrahedron') if tier == 'quick' else A.QUICK_BODIES + ['square', 'pyramid']):
         fams.append(MovedBody(b, A.P1, params, 7 if tier == 'quick' else 2))
     return fams
